@@ -128,7 +128,7 @@ def do_access(ds, n, acc):
         it = iter(ds)
         for j in range(min(i, n)):
             out.append((j, next(it)))
-        it.close()
+        W.close_iter(it)
         return out
     raise ValueError(kind)
 
